@@ -24,6 +24,13 @@ def msg(max_size=300, big=False):
     return st.one_of(*parts)
 
 
+def uniform_int(lo, hi):
+    """Full-width values: st.integers() is heavily biased towards small magnitudes."""
+    span = hi - lo + 1
+    k = (span.bit_length() + 7) // 8 + 8
+    return st.binary(min_size=k, max_size=k).map(lambda b: lo + int.from_bytes(b, "big") % span)
+
+
 def scalar_in(lo, hi, extra=()):
     """Integers of [lo, hi]: both ends, every bit length, and uniform."""
     vals = {lo, lo + 1, hi, hi - 1}
@@ -37,7 +44,8 @@ def scalar_in(lo, hi, extra=()):
         if lo <= e <= hi:
             vals.add(e)
     vals = sorted(v for v in vals if lo <= v <= hi)
-    return st.one_of(st.sampled_from(vals), st.integers(lo, hi), st.integers(lo, hi))
+    return st.one_of(st.sampled_from(vals), uniform_int(lo, hi), uniform_int(lo, hi),
+                     st.integers(lo, hi))
 
 
 def sk():
@@ -47,4 +55,5 @@ def sk():
 def field_elt(p):
     spec = sorted({0, 1, 2, p - 1, p - 2, (p - 1) // 2, (p + 1) // 2} & set(range(0, p)) if p < 50
                   else {0, 1, 2, p - 1, p - 2, (p - 1) // 2, (p + 1) // 2})
-    return st.one_of(st.sampled_from(spec), st.integers(0, p - 1), st.integers(0, p - 1))
+    return st.one_of(st.sampled_from(spec), uniform_int(0, p - 1), uniform_int(0, p - 1),
+                     st.integers(0, p - 1))
